@@ -1,8 +1,8 @@
 """C01 - Connected instances converge on one running Master (necessary structural conditions, not convergence)."""
 import ast
 from ..model import own_nodes, AnalysisError
-from ..defuse import comp_view, cond_atoms
-from ..paths import ctext, factmap, must_call, call_text, returns
+from ..defuse import comp_view, cond_atoms, defuse, closed_text
+from ..paths import assigned_values, ctext, factmap, must_call, call_text, returns
 from ..callgraph import CallGraph
 from ..fsm import Fsm, WORKING, ENDING
 
@@ -337,29 +337,24 @@ def run(P, R):
             u.loc(), 'get_stable_running_identifiers / STABLE_STATES=%s do not reject transient peer states' % members)
     u = P.unit('SupvisorsStateModes.evaluate_stability')
     fm = factmap(u)
-    sets = [n for n in own_nodes(u.node) if isinstance(n, ast.Assign) and
-            ast.unparse(n.targets[0]) == 'self.stable_identifiers']
-    good = [n for n in sets if ast.unparse(n.value) != 'set()']
-    def all_equal(f):
-        # all(<x> == <list>[0] for <x> in <list>)
-        c = f.node
-        if not (f[1] and isinstance(c, ast.Call) and call_text(c) == 'all' and c.args and
-                isinstance(c.args[0], ast.GeneratorExp)):
-            return None
-        g = c.args[0]
-        e = g.elt
-        if isinstance(e, ast.Compare) and len(e.ops) == 1 and isinstance(e.ops[0], ast.Eq):
-            lst = ast.unparse(g.generators[0].iter)
-            sides = {ast.unparse(e.left), ast.unparse(e.comparators[0])}
-            if sides == {ast.unparse(g.generators[0].target), lst + '[0]'} and not g.generators[0].ifs:
-                return lst
-        return None
-    lists = [all_equal(f) for f in (fm.at(good[0]) if len(good) == 1 else [])]
-    lists = [l for l in lists if l]
-    ok = len(good) == 1 and len(lists) == 1 and ast.unparse(good[0].value) == lists[0] + '[0]' and \
-        any(f[1] and f[0] == lists[0] for f in fm.at(good[0])) and \
-        any(ast.unparse(i) == 'self.is_running(identifier)' for n in own_nodes(u.node) if isinstance(n, ast.ListComp)
-            for g in n.generators for i in g.ifs)
+    # closed forms: the set stored is element 0 of the list L of the views of the RUNNING instances, under the facts
+    # "L is not empty" and "every element of L equals L[0]" (whatever locals hold L, L[0] or the result)
+    du = defuse(u)
+    vals = [(du.closed(v), {(t, pol) for t, pol in fm.closed(n)} | {(closed_text(u, ast.parse(f[0], mode='eval').body), f[1])
+                                                                  for f in facts}, n)
+            for v, facts, n in assigned_values(u, 'self.stable_identifiers')]
+    good = [(v, fs, n) for v, fs, n in vals if ast.unparse(v) != 'set()']
+    ok = False
+    if len(good) == 1:
+        v, fs, n = good[0]
+        if isinstance(v, ast.Subscript) and ast.unparse(v.slice) == '0' and isinstance(v.value, ast.ListComp):
+            L = ast.unparse(v.value)
+            cv = comp_view(u, v.value)
+            agree = ctext('all((each(%s) == %s[0] for _ in %s))' % (L, L, L))
+            ok = (L, True) in fs and any(pol and ctext(t) == agree for t, pol in fs) and \
+                cv['iters'] == ['self.instance_state_modes.items()'] and \
+                cv['elt'] == 'each(self.instance_state_modes.items())[1].get_stable_running_identifiers()' and \
+                cv['conds'] == {('self.is_running(each(self.instance_state_modes.items())[0])', True)}
     R.check(r5, ok, 'stable identifiers are set only when all RUNNING instances agree', 'stable|agreement', u.loc(),
             'evaluate_stability sets stable_identifiers without requiring all RUNNING instances to report the same set')
     u = P.unit('SupvisorsStateModes.is_stable')
